@@ -17,7 +17,7 @@ RULE = (
     "+-(max-ulp), 1/3, 1e-60, huge}; plus non-constant-capable types (arrays, byte, utf8, composites) and random pairs "
     "(thorough). Valid pairs are batched per file, every invalid pair sits alone in its file. Oracles: accept/reject by "
     "the rules of the statement, stored value = exact rational of the initializer, and the icontract postcondition "
-    "M-const on every Constant constructed. exhaustive=true refers to this finite grid, not to all initializers. "
+    "M-const on every Constant constructed; strings incl. every kind of non-ASCII character with an ASCII normal / case form. exhaustive=true refers to this finite grid, not to all initializers. "
     "Non-trivial: every grid point sits on or next to a boundary by construction; distinct by (type, initializer)."
 )
 ASSUMPTIONS = ["the acceptance rules are those restated in the property (range, kind, one ASCII character for uint8 only)"]
@@ -73,6 +73,25 @@ def real_text(fr: Fraction, exponent=False):
     return sign + (digits[:-k] + "." + digits[-k:] if k else digits + ".0")
 
 
+def ascii_lookalikes():
+    """
+    Non-ASCII characters that some canonical / compatibility normal form or case mapping turns into exactly one ASCII character
+    (KELVIN SIGN -> K, GREEK QUESTION MARK -> ;, fullwidth and mathematical letters, LONG S, ...): one character, not ASCII.
+    The three whose *canonical composition* is ASCII come first; the rest is a deterministic sample.
+    """
+    import unicodedata
+
+    first, rest = [], []
+    for cp in range(0x80, 0x110000):
+        if 0xD800 <= cp <= 0xDFFF:
+            continue
+        c = chr(cp)
+        forms = {unicodedata.normalize(f, c) for f in ("NFC", "NFD", "NFKC", "NFKD")} | {c.lower(), c.upper(), c.casefold()}
+        if any(len(x) == 1 and ord(x) < 128 for x in forms):
+            (first if len(unicodedata.normalize("NFC", c)) == 1 and ord(unicodedata.normalize("NFC", c)) < 128 else rest).append(c)
+    return first + rest[::max(1, len(rest) // 40)]
+
+
 def grid():
     """Yields (type text, canonical type str, initializer text, expected) with expected = ('ok', value) | ('reject',)."""
     specials = [("''", None), ("'a'", "a"), ("'ab'", None), ("'\\u00e9'", None), ("'é'", None), ("'\\u007f'", "\x7f"), ('"~"', "~"),
@@ -97,6 +116,15 @@ def grid():
             else:
                 ok = kind == "uint" and n == 8
                 yield text, canon, init, (("ok", Fraction(ord(ch))) if ok else ("reject",))
+    for c in ascii_lookalikes():
+        esc = "\\u%04x" % ord(c) if ord(c) <= 0xFFFF else "\\U%08x" % ord(c)
+        for text in ("saturated uint8", "truncated uint8", "saturated uint16", "saturated int8"):
+            for init in ("'%s'" % c, "'%s'" % esc, "'%s' + ''" % esc, '"" + "%s"' % c):
+                yield text, text, init, ("reject",)
+    for text in ("saturated uint8", "truncated uint8"):
+        # the value of a concatenation is a string like any other: one ASCII character or not
+        for init, ch in (("'' + 'a'", "a"), ("'a' + ''", "a"), ("'a' + 'b'", None), ("'' + ''", None), ("'\\u0041' + \"\"", "A")):
+            yield text, text, init, (("ok", Fraction(ord(ch))) if ch else ("reject",))
     for w in (16, 32, 64):
         mx = float_max(w)
         e, m = {16: (5, 10), 32: (8, 23), 64: (11, 52)}[w]
